@@ -12,7 +12,7 @@
  *       $REPO/src/x509/skey_decoder.c $REPO/src/x509/x509_decoder.c -o /tmp/demo
  *   /tmp/demo pkey | skey | x509 | pkey-oversize
  *
- * pkey:  a VALID 26-byte EC SubjectPublicKeyInfo-style key is decoded
+ * pkey:  a VALID RSA SubjectPublicKeyInfo (64-byte modulus) is decoded
  *        successfully; the caller then keeps feeding trailing bytes one push at
  *        a time (e.g. a file with trailing newlines read in small chunks):
  *        1st extra byte -> BR_ERR_X509_EXTRA_ELEMENT (documented),
@@ -24,8 +24,38 @@
 #include <stdlib.h>
 #include "bearssl.h"
 
-/* SEQUENCE { INTEGER n (3 bytes), INTEGER e (1 byte) }  -- raw RSA public key */
-static const unsigned char rsa_pub[] = { 0x30, 0x08, 0x02, 0x03, 0x01, 0x00, 0x01, 0x02, 0x01, 0x03 };
+/* DER length */
+static size_t
+put_len(unsigned char *b, size_t len)
+{
+	if (len < 0x80) { b[0] = (unsigned char)len; return 1; }
+	b[0] = 0x82; b[1] = (unsigned char)(len >> 8); b[2] = (unsigned char)len; return 3;
+}
+/* SubjectPublicKeyInfo { AlgorithmIdentifier rsaEncryption NULL, BIT STRING { SEQUENCE { INTEGER n, INTEGER e } } },
+   modulus = nlen bytes 0xA5.., exponent 3 */
+static size_t
+make_spki(unsigned char *out, size_t nlen)
+{
+	static const unsigned char alg[] = { 0x30, 0x0D, 0x06, 0x09, 0x2A, 0x86, 0x48, 0x86, 0xF7, 0x0D, 0x01, 0x01, 0x01, 0x05, 0x00 };
+	unsigned char l1[3], l2[3], l3[3], l4[3];
+	size_t n1 = put_len(l1, nlen);                 /* INTEGER n */
+	size_t seq = 1 + n1 + nlen + 3;                /* n + e */
+	size_t n2 = put_len(l2, seq);
+	size_t bits = 1 + 1 + n2 + seq;                /* unused-bits byte + SEQUENCE */
+	size_t n3 = put_len(l3, bits);
+	size_t tot = sizeof alg + 1 + n3 + bits;
+	size_t n4 = put_len(l4, tot);
+	size_t k = 0;
+	out[k ++] = 0x30; memcpy(out + k, l4, n4); k += n4;
+	memcpy(out + k, alg, sizeof alg); k += sizeof alg;
+	out[k ++] = 0x03; memcpy(out + k, l3, n3); k += n3;
+	out[k ++] = 0x00;
+	out[k ++] = 0x30; memcpy(out + k, l2, n2); k += n2;
+	out[k ++] = 0x02; memcpy(out + k, l1, n1); k += n1;
+	memset(out + k, 0xA5, nlen); out[k] = 0x7F; k += nlen;
+	out[k ++] = 0x02; out[k ++] = 0x01; out[k ++] = 0x03;
+	return k;
+}
 /* RSAPrivateKey-like garbage for skey: wrong outer tag */
 static const unsigned char bad_tag[] = { 0x31, 0x00 };
 
@@ -35,8 +65,10 @@ int main(int argc, char **argv)
 	int i;
 	if (!strcmp(what, "pkey")) {
 		br_pkey_decoder_context *dc = malloc(sizeof *dc);
+		unsigned char rsa_pub[200];
+		size_t rl = make_spki(rsa_pub, 64);
 		br_pkey_decoder_init(dc);
-		br_pkey_decoder_push(dc, rsa_pub, sizeof rsa_pub);
+		br_pkey_decoder_push(dc, rsa_pub, rl);
 		printf("after key: last_error=%d key_type=%d\n", br_pkey_decoder_last_error(dc), br_pkey_decoder_key_type(dc));
 		for (i = 0; i < 3; i ++) {
 			br_pkey_decoder_push(dc, "\n", 1);
@@ -64,13 +96,9 @@ int main(int argc, char **argv)
 		   key_data is 3*BR_X509_BUFSIZE_SIG = 1536 bytes but the T0 code
 		   accepts up to 3*BR_X509_BUFSIZE_KEY = 1560 */
 		size_t nlen = argc > 2 ? (size_t)atoi(argv[2]) : 1560;
-		size_t tot = 4 + nlen + 3, k = 0;
-		unsigned char *der = malloc(tot + 4);
+		unsigned char *der = malloc(nlen + 64);
 		br_pkey_decoder_context *dc = malloc(sizeof *dc);
-		der[k ++] = 0x30; der[k ++] = 0x82; der[k ++] = (unsigned char)((tot) >> 8); der[k ++] = (unsigned char)tot;
-		der[k ++] = 0x02; der[k ++] = 0x82; der[k ++] = (unsigned char)(nlen >> 8); der[k ++] = (unsigned char)nlen;
-		memset(der + k, 0xA5, nlen); k += nlen;
-		der[k ++] = 0x02; der[k ++] = 0x01; der[k ++] = 0x03;
+		size_t k = make_spki(der, nlen);
 		br_pkey_decoder_init(dc);
 		br_pkey_decoder_push(dc, der, k);
 		printf("oversize modulus %u bytes: last_error=%d key_type=%d (sizeof key_data=%u)\n", (unsigned)nlen,
